@@ -1,8 +1,8 @@
 // C01 (dynamic half): within one engine cycle every node is evaluated at most once and never before a node
 // whose output it reads (directly, through a TSL structural source, through a reference, across a nested
 // boundary); root graph and nested child graph.
-//   enumerated: the wiring program (hk_c01.h: NNODES statements over {source, 1-input, 2-input} with inputs chosen
-//               among earlier ports, 2-input nodes direct or through a TSL structural source, plus one extra:
+//   enumerated: the wiring program (hk_c01.h: NNODES statements over {source, 1-input, 2-input, 3-input with repeated
+//               inputs allowed} with inputs chosen among earlier ports, multi-input nodes direct or through a TSL structural source, plus one extra:
 //               feedback loop / rank dependency that reorders statements / nested child graph / REF pass-through),
 //               which source ticks in which cycle
 //   symbolic  : payloads
@@ -116,8 +116,8 @@ extern "C" int harness_main() {
                     continue;
                 }
                 // inputs of i in slot order
-                int a = -1, b = -1;
-                if (i < P.n) { a = P.in0[i]; b = P.in1[i]; }
+                int a = -1, b = -1, c3 = -1;
+                if (i < P.n) { a = P.in0[i]; b = P.in1[i]; c3 = P.in2[i]; }
                 else if (P.extra == X_NESTED) {
                     if (i == P.n) a = P.xp;
                     if (i == P.n + 1) { a = P.n; b = P.xq; }
@@ -125,16 +125,15 @@ extern "C" int harness_main() {
                 } else if (P.extra == X_REF) {
                     if (i == P.n + 1) a = P.xp;  // reads xp through the reference
                 }
-                bool trig = (a >= 0 && ticked[a]) || (b >= 0 && ticked[b]);
                 if (rec != nullptr) {
-                    Int want = (a >= 0 && has[a] ? cur[a] : Int{0}) + (b >= 0 ? 3 * (has[b] ? cur[b] : Int{0}) : Int{0}) + node_const(i);
+                    Int want = (a >= 0 && has[a] ? cur[a] : Int{0}) + (b >= 0 ? 3 * (has[b] ? cur[b] : Int{0}) : Int{0}) +
+                               (c3 >= 0 ? 9 * (has[c3] ? cur[c3] : Int{0}) : Int{0}) + node_const(i);
                     ok_val &= rec->value == want;
                     cur[i] = rec->value;
                     has[i] = true;
                     ticked[i] = true;
-                    if (a >= 0 && b >= 0 && ticked[a] && ticked[b]) r_multi = true;
+                    if (a >= 0 && b >= 0 && a != b && ticked[a] && ticked[b]) r_multi = true;
                 }
-                (void)trig;
             }
         }
     }
@@ -147,6 +146,8 @@ extern "C" int harness_main() {
     if (r_diamond) verif_reach("fan_in_with_unequal_depth");
     if (r_multi) verif_reach("both_inputs_ticked_in_one_cycle");
     if (P.via_tsl) verif_reach("tsl_structural_source");
+    if (reads_same_twice(P)) verif_reach("same_producer_read_twice");
+    if (P.via_tsl && elements_two_levels_apart(P)) verif_reach("tsl_elements_two_levels_apart");
     if (P.extra == X_FEEDBACK && g_cycle >= 2) verif_reach("feedback_loop_ran");
     if (P.extra == X_RANKDEP || P.extra == X_RANKDEP2) {
         bool reorders = false;
